@@ -310,5 +310,69 @@ class LazyPart(Part):
         return res
 
 
+class WiringPart(Part):
+    name = "file_anonymizer_option_wiring"
+    desc = "FileAnonymizer / anonymize_files with every (prefixes, networks, host bits) shape: listed or default prefixes survive"
+
+    def __init__(self, tier, seed):
+        self.tier, self.seed = tier, seed
+
+    def cases(self):
+        out = []
+        for pl in (None, [], ["10.0.0.0/8", "200.0.0.0/7"]):
+            for nl in (None, [], ["10.9.0.0/16"], ["10.0.0.0/8", "172.16.0.0/12", "192.168.0.0/16"]):
+                for B in (None, 0, 8):
+                    for salt in ("saltForTest", "seed%d" % self.seed):
+                        out.append({"pl": pl, "nl": nl, "B": B, "salt": salt})
+        return out
+
+    def run(self, case):
+        import io
+
+        from netconan.anonymize_files import FileAnonymizer
+
+        res = Res()
+        pl, nl, B = case["pl"], case["nl"], case["B"]
+        listed = list(DEFAULTS if pl is None else pl) + list(nl or [])
+        nets = [ipaddress.ip_network(p) for p in listed]
+        W = window_for(listed, self.seed)
+        kw = {}
+        if B is not None:
+            kw = {"preserve_suffix_v4": B, "preserve_suffix_v6": B}
+        from mc import seams
+
+        with seams.capture_logs():
+            fa = FileAnonymizer(anon_pwd=False, anon_ip=True, salt=case["salt"],
+                                preserve_prefixes=None if pl is None else list(pl),
+                                preserve_networks=None if nl is None else list(nl), **kw)
+            out = io.StringIO()
+            fa.anonymize_io(io.StringIO("".join("a %s b\n" % ipaddress.IPv4Address(a) for a in W)), out)
+        got = [ln.split()[1] for ln in out.getvalue().splitlines()]
+        inpreserved = [ipaddress.ip_network(n) for n in (nl or [])]
+        for a, tok in zip(W, got):
+            res.evals += 1
+            try:
+                fa_ = int(ipaddress.IPv4Address(tok))
+            except ValueError:
+                res.violation("output-token-not-address", "%r" % tok, case)
+                continue
+            if fa_ != a:
+                res.nt((repr(pl), repr(nl), B, case["salt"], a))
+            for n in nets:
+                lo, hi = int(n.network_address), int(n.broadcast_address)
+                if (lo <= a <= hi) != (lo <= fa_ <= hi):
+                    res.violation("membership-not-preserved-through-FileAnonymizer|%s" % (
+                        "default-prefixes" if pl is None and str(n) in DEFAULTS else "listed"),
+                        "FileAnonymizer(preserve_prefixes=%r, preserve_networks=%r, host bits %r): %s -> %s wrt %s" % (
+                            pl, nl, B, ipaddress.IPv4Address(a), tok, n), case)
+                    break
+            if B and (a & ((1 << B) - 1)) != (fa_ & ((1 << B) - 1)):
+                res.violation("host-bits-changed-through-FileAnonymizer", "%s -> %s B=%r" % (
+                    ipaddress.IPv4Address(a), tok, B), case)
+        res.out(tuple(got[:20]))
+        res.samples.append({"case": case, "addresses": len(W)})
+        return res
+
+
 def parts(tier, seed):
-    return [PrefixPart(tier, seed), HostBitsPart(tier, seed), LazyPart(tier, seed)]
+    return [PrefixPart(tier, seed), HostBitsPart(tier, seed), LazyPart(tier, seed), WiringPart(tier, seed)]
